@@ -400,7 +400,9 @@ static Mut mutate(Rng &r, const Spec &s) {
 		m.name = "extension-with-two-axes"; break; }
 	case 29: { // an integer keyword whose value is a long string of garbage (cfitsio formats an error message around it)
 		int d = (int)r.below(nd); std::string k = s.legacy_single_order ? "ORDER" : "ORDER" + std::to_string(d); size_t len = 20 + r.below(45); std::string junk; for (size_t i = 0; i < len; i++) junk += (char)('A' + r.below(26));
-		int form = (int)r.below(3); set_card(hd[0], k, form == 0 ? card_str(k, junk) : form == 1 ? pad80(k + std::string(8 - std::min<size_t>(8, k.size()), ' ') + "= " + junk) : pad80(k + std::string(8 - std::min<size_t>(8, k.size()), ' ') + "= " + std::string(len, '9')));
+		int form = (int)r.below(4);
+		if (form == 3) { hd[0].cards.push_back(pad80(k + std::string(8 - std::min<size_t>(8, k.size()), ' ') + "= " + std::string(len, '9'))); m.name = "ORDERn-duplicated-with-long-garbage-value"; break; } // the valid card stays, a second one with the same keyword follows
+		set_card(hd[0], k, form == 0 ? card_str(k, junk) : form == 1 ? pad80(k + std::string(8 - std::min<size_t>(8, k.size()), ' ') + "= " + junk) : pad80(k + std::string(8 - std::min<size_t>(8, k.size()), ' ') + "= " + std::string(len, '9')));
 		m.name = "ORDERn-long-garbage-value"; break; }
 	case 30: { // self-consistent table with 10..20 dimensions of one coefficient each (cfitsio's pixel routines handle at most 9 axes)
 		Spec t; int nd2 = 10 + (int)r.below(11); for (int d = 0; d < nd2; d++) { t.order.push_back(0); t.knots.push_back({0.0 + d, 1.0 + d}); } t.coef.assign(1, 0.5f); t.flavor = "many-dims";
